@@ -1,6 +1,6 @@
 (* Proofs for C30 (retention deletes only expired segments of the right path). *)
 From Coq Require Import List ZArith Bool Lia ZifyBool.
-Require Import MTX.Lib.Civil MTX.Model.C26_RecPath MTX.Proofs.C26_RecPath
+Require Import MTX.Lib.Civil MTX.Model.C26_RecPath MTX.Proofs.C26_RecPath MTX.Model.C26_Zone MTX.Proofs.C26_Zone
                MTX.Model.C31_DeleteSeg MTX.Proofs.C31_DeleteSeg MTX.Model.C30_Cleaner.
 Import ListNotations.
 Local Open Scope Z_scope.
@@ -51,18 +51,18 @@ Proof. rewrite combine_seq_in, Nat.sub_0_r. split; [intros [_ H]; exact H|intros
 (* ---------------------------------------------------------------- one pass *)
 
 Section Cleaner.
-Variable loff : Z.
+Variable L : lzone.
 Variable rematch : nat -> list Z -> bool.
 Variable resolve : list Z -> option nat.
 
-Notation recognises := (recognises loff).
-Notation path_names := (path_names loff rematch).
-Notation claimed := (claimed loff resolve).
-Notation deleted := (deleted loff rematch resolve).
-Notation run_seq := (run_seq loff rematch resolve).
+Notation recognises := (recognises L).
+Notation path_names := (path_names L rematch).
+Notation claimed := (claimed L resolve).
+Notation deleted := (deleted L rematch resolve).
+Notation run_seq := (run_seq L rematch resolve).
 
 Lemma recognises_some g e r : recognises g e = Some r ->
-  snd e = KOther /\ under (common_path g) (fst e) = true /\ decode loff g (fst e) = Some r.
+  snd e = KOther /\ under (common_path g) (fst e) = true /\ decode_lz L g (fst e) = Some r.
 Proof.
   unfold C30_Cleaner.recognises, is_file. destruct e as [p k]. cbn [fst snd].
   destruct k; cbn [andb]; [discriminate|].
@@ -70,7 +70,7 @@ Proof.
 Qed.
 
 Lemma recognises_intro g e r :
-  snd e = KOther -> under (common_path g) (fst e) = true -> decode loff g (fst e) = Some r ->
+  snd e = KOther -> under (common_path g) (fst e) = true -> decode_lz L g (fst e) = Some r ->
   recognises g e = Some r.
 Proof.
   intros Hk Hu Hd. unfold C30_Cleaner.recognises, is_file. rewrite Hk, Hu. exact Hd.
@@ -96,7 +96,7 @@ Lemma claimed_spec confs now pn e : claimed confs now pn e = true <->
   exists j c p u n, resolve pn = Some j /\ nth_error confs j = Some c /\ pc_da c <> 0 /\
     valid_path_name pn = true /\ snd e = KOther /\
     under (common_path (seg_format c pn)) (fst e) = true /\
-    decode loff (seg_format c pn) (fst e) = Some (p, u, n) /\ start_ns u n <= now - pc_da c.
+    decode_lz L (seg_format c pn) (fst e) = Some (p, u, n) /\ start_ns u n <= now - pc_da c.
 Proof.
   unfold C30_Cleaner.claimed. split.
   - destruct (resolve pn) as [j|]; [|discriminate].
@@ -118,7 +118,7 @@ Theorem only_expired confs now tree e : In e (deleted confs now tree) ->
     In pn (path_names confs tree) /\ resolve pn = Some j /\ nth_error confs j = Some c /\
     pc_da c <> 0 /\ valid_path_name pn = true /\
     under (common_path (seg_format c pn)) (fst e) = true /\
-    decode loff (seg_format c pn) (fst e) = Some (p, u, n) /\ start_ns u n <= now - pc_da c.
+    decode_lz L (seg_format c pn) (fst e) = Some (p, u, n) /\ start_ns u n <= now - pc_da c.
 Proof.
   unfold C30_Cleaner.deleted. rewrite filter_In, existsb_exists. intros (Hin & pn & Hpn & Hc).
   apply claimed_spec in Hc. destruct Hc as (j & c & p & u & n & Hr & Hn & Hda & Hv & Hk & Hu & Hd & Hle).
@@ -133,7 +133,7 @@ Theorem deleted_whole_name confs now tree e : In e (deleted confs now tree) ->
     fst e = fill (tokenize (seg_format c pn)) caps /\ forallb cap_shape caps = true.
 Proof.
   intros H. destruct (only_expired _ _ _ _ H) as (_ & _ & pn & j & c & p & u & n & _ & Hr & Hn & _ & _ & _ & Hd & _).
-  destruct (whole_name _ _ _ _ Hd) as (caps & Hf & Hs & _).
+  destruct (whole_name_lz _ _ _ _ Hd) as (caps & Hf & Hs & _).
   exists pn, j, c, caps. repeat split; assumption.
 Qed.
 
@@ -153,7 +153,7 @@ Proof.
     destruct (valid_path_name p && rematch i p) eqn:Hv; [|destruct Hp].
     destruct Hp as [<-|[]]. apply andb_true_iff in Hv. destruct Hv as [Hv Hm].
     repeat split; try assumption. exists e, u, n. split; assumption.
-  - left. destruct (fixed_has_segments loff c tree) eqn:Hf; [|destruct Hpn].
+  - left. destruct (fixed_has_segments L c tree) eqn:Hf; [|destruct Hpn].
     destruct Hpn as [<-|[]]. repeat split.
     unfold fixed_has_segments in Hf. apply existsb_exists in Hf. destruct Hf as (e & He & Hr).
     destruct (recognises (seg_format c (pc_name c)) e) as [r|] eqn:Hrec; [|discriminate].
@@ -166,7 +166,7 @@ Lemma discovered_static confs tree j c e r :
 Proof.
   intros Hn Hre He Hr. unfold C30_Cleaner.path_names. apply in_flat_map. exists (j, c).
   split; [now apply combine_seq0_in|]. rewrite Hre.
-  assert (Hf : fixed_has_segments loff c tree = true).
+  assert (Hf : fixed_has_segments L c tree = true).
   { unfold fixed_has_segments. apply existsb_exists. exists e. split; [exact He|]. now rewrite Hr. }
   rewrite Hf. left; reflexivity.
 Qed.
@@ -187,7 +187,7 @@ Theorem all_expired confs now tree e pn j c p u n :
   In e tree -> snd e = KOther -> In pn (path_names confs tree) ->
   resolve pn = Some j -> nth_error confs j = Some c -> pc_da c <> 0 -> valid_path_name pn = true ->
   under (common_path (seg_format c pn)) (fst e) = true ->
-  decode loff (seg_format c pn) (fst e) = Some (p, u, n) -> start_ns u n <= now - pc_da c ->
+  decode_lz L (seg_format c pn) (fst e) = Some (p, u, n) -> start_ns u n <= now - pc_da c ->
   In e (deleted confs now tree).
 Proof.
   intros He Hk Hpn Hr Hn Hda Hv Hu Hd Hle. unfold C30_Cleaner.deleted. apply filter_In. split; [exact He|].
@@ -200,7 +200,7 @@ Theorem all_expired_static confs now tree e j c p u n :
   In e tree -> snd e = KOther -> nth_error confs j = Some c -> pc_regex c = false ->
   resolve (pc_name c) = Some j -> pc_da c <> 0 -> valid_path_name (pc_name c) = true ->
   under (common_path (seg_format c (pc_name c))) (fst e) = true ->
-  decode loff (seg_format c (pc_name c)) (fst e) = Some (p, u, n) -> start_ns u n <= now - pc_da c ->
+  decode_lz L (seg_format c (pc_name c)) (fst e) = Some (p, u, n) -> start_ns u n <= now - pc_da c ->
   In e (deleted confs now tree).
 Proof.
   intros He Hk Hn Hre Hr Hda Hv Hu Hd Hle.
@@ -218,9 +218,9 @@ Theorem all_expired_recorded confs now tree e pn j c t :
   resolve pn = Some j -> nth_error confs j = Some c -> pc_regex c = true -> rematch j pn = true ->
   pc_da c <> 0 -> valid_path_name pn = true -> name_ok pn = true -> Forall (fun x => x <> 37) (pc_ext c) ->
   no_stray (tokenize (pc_rp c)) = true ->
-  wf_format F = true -> identifies (tokenize F) = true -> encodable loff (tokenize F) t = true ->
+  wf_format F = true -> identifies (tokenize F) = true -> encodable_lz L (tokenize F) t = true ->
   no_stray (tokenize g) = true -> no_path (tokenize g) = true -> identifies (tokenize g) = true ->
-  encodable loff (tokenize g) t = true ->
+  encodable_lz L (tokenize g) t = true ->
   under (common_path F) (fst e) = true -> under (common_path g) (fst e) = true ->
   start_ns (fst (trunc_start (tokenize g) t)) (snd (trunc_start (tokenize g) t)) <= now - pc_da c ->
   In e (deleted confs now tree).
@@ -232,8 +232,82 @@ Proof.
     try assumption.
   - apply (discovered_regex confs tree j c e pn (fst (trunc_start (tokenize F) t)) (snd (trunc_start (tokenize F) t)));
       try assumption.
-    apply recognises_intro; [exact Hk|exact HuF|]. rewrite Hname. apply roundtrip; assumption.
-  - rewrite Hname'. apply roundtrip_nopath; assumption.
+    apply recognises_intro; [exact Hk|exact HuF|]. rewrite Hname. apply roundtrip_lz; assumption.
+  - rewrite Hname'. apply roundtrip_nopath_lz; assumption.
 Qed.
 
 End Cleaner.
+
+(* ---------------------------------------------------------------- full whole-name; zone tables *)
+
+(* a deleted file's name is exactly what Encode writes for the path and start Decode reports *)
+Theorem deleted_is_encoding L rematch resolve confs now tree e :
+  In e (deleted L rematch resolve confs now tree) ->
+  exists pn j c p u n off, resolve pn = Some j /\ nth_error confs j = Some c /\
+    decode_lz L (seg_format c pn) (fst e) = Some (p, u, n) /\
+    fst e = encode_go (seg_format c pn) p (mkI u n off) /\ start_ns u n <= now - pc_da c.
+Proof.
+  intros H. destruct (only_expired _ _ _ _ _ _ _ H) as (_ & _ & pn & j & c & p & u & n & _ & Hr & Hn & _ & _ & _ & Hd & Hle).
+  destruct (whole_name_full _ _ _ _ _ _ Hd) as (off & Hv).
+  exists pn, j, c, p, u, n, off. repeat split; assumption.
+Qed.
+
+(* all_expired_recorded for any local zone in which the decoded Start shows the reading that was
+   written: the segment is judged on the Start the listing reports *)
+Theorem all_expired_recorded_wall L rematch resolve confs now tree e pn j c t :
+  let F := pc_rp c ++ pc_ext c in
+  let g := seg_format c pn in
+  In e tree -> snd e = KOther -> fst e = encode_go F pn t ->
+  resolve pn = Some j -> nth_error confs j = Some c -> pc_regex c = true -> rematch j pn = true ->
+  pc_da c <> 0 -> valid_path_name pn = true -> name_ok pn = true -> Forall (fun x => x <> 37) (pc_ext c) ->
+  no_stray (tokenize (pc_rp c)) = true ->
+  wf_format F = true -> identifies (tokenize F) = true -> enc_ranges (tokenize F) t = true ->
+  no_stray (tokenize g) = true -> no_path (tokenize g) = true -> identifies (tokenize g) = true ->
+  enc_ranges (tokenize g) t = true ->
+  (forall ts, decoded_unix L ts t + lz_at L (decoded_unix L ts t) = i_unix t + i_off t) ->
+  under (common_path F) (fst e) = true -> under (common_path g) (fst e) = true ->
+  start_ns (decoded_unix L (tokenize g) t) (snd (trunc_start (tokenize g) t)) <= now - pc_da c ->
+  In e (deleted L rematch resolve confs now tree).
+Proof.
+  intros F g He Hk Hname Hr Hn Hre Hm Hda Hv Hok Hext Hsrp HwF HiF HeF Hsg Hpg Hig Heg Hwall HuF Hug Hle.
+  assert (Hname' : fst e = encode_go g [] t).
+  { rewrite Hname. symmetry. apply path_format_encode; [exact Hsrp|apply name_ok_no37; exact Hok|exact Hext]. }
+  apply (all_expired L rematch resolve confs now tree e pn j c [] (decoded_unix L (tokenize g) t)
+           (snd (trunc_start (tokenize g) t)) He Hk); try assumption.
+  - apply (discovered_regex L rematch confs tree j c e pn (decoded_unix L (tokenize F) t) (snd (trunc_start (tokenize F) t)));
+      try assumption.
+    apply recognises_intro; [exact Hk|exact HuF|]. rewrite Hname. apply roundtrip_wall; try assumption.
+    intros _. apply Hwall.
+  - rewrite Hname'. apply roundtrip_nopath_wall; try assumption. intros _. apply Hwall.
+Qed.
+
+(* in a zone-database zone: every segment the recorder wrote - repeated hours included - is deleted once
+   the Start the listing reports for it has expired *)
+Theorem all_expired_recorded_zone B z rematch resolve confs now tree e pn j c u n :
+  zone_ok B z = true ->
+  let t := local_instant z u n in
+  let F := pc_rp c ++ pc_ext c in
+  let g := seg_format c pn in
+  In e tree -> snd e = KOther -> fst e = encode_go F pn t ->
+  resolve pn = Some j -> nth_error confs j = Some c -> pc_regex c = true -> rematch j pn = true ->
+  pc_da c <> 0 -> valid_path_name pn = true -> name_ok pn = true -> Forall (fun x => x <> 37) (pc_ext c) ->
+  no_stray (tokenize (pc_rp c)) = true ->
+  wf_format F = true -> identifies (tokenize F) = true -> enc_ranges (tokenize F) t = true ->
+  no_stray (tokenize g) = true -> no_path (tokenize g) = true -> identifies (tokenize g) = true ->
+  enc_ranges (tokenize g) t = true ->
+  under (common_path F) (fst e) = true -> under (common_path g) (fst e) = true ->
+  start_ns (decoded_unix (lz_of_zone z) (tokenize g) t) (snd (trunc_start (tokenize g) t)) <= now - pc_da c ->
+  In e (deleted (lz_of_zone z) rematch resolve confs now tree).
+Proof.
+  intros Hok t F g. intros. eapply all_expired_recorded_wall with (t := t); try eassumption.
+  intros ts. exact (decoded_wall_zone B z ts u n Hok).
+Qed.
+
+(* that Start is the recorded instant outside the repeated hours ... *)
+Lemma decoded_exact_zone B z ts u n : zone_ok B z = true -> in_repeat (lookup z) u = false ->
+  decoded_unix (lz_of_zone z) ts (local_instant z u n) = u.
+Proof.
+  intros Hok Hrep. unfold decoded_unix. cbn [local_instant i_unix i_off lz_of_zone lz_date].
+  destruct (has Ts ts); [reflexivity|]. destruct (has Tz ts); [lia|].
+  rewrite (zone_date_recovers B z Hok u Hrep). lia.
+Qed.
